@@ -178,6 +178,8 @@ def run_scenario(sc):
         gaps = np.where(rng.random(N) < 0.1, rng.uniform(0.5, 0.6, N), rng.uniform(9.5, 10, N))
     else:
         gaps = np.where(rng.random(N) < 0.5, rng.uniform(0.5, 0.7, N), rng.uniform(5, 10, N))
+    for e in sc.get("plant", []):
+        gaps[e] = 0.6               # event e + 1 (1-based) follows event e after 0.6 s: closer than a coarse tbin
     t = np.cumsum(gaps) + sc["t0"]
     # held-out events (shown to neither side): strictly inside gaps of the train
     k = rng.integers(0, N - 1, nheld)
@@ -395,6 +397,15 @@ def plan(ctx, patterns, runs=()):
         if i % 3 == 0:
             sc["drift_ppm"] = rng.choice([-100.0, 100.0, rng.uniform(-100, 100)])
         scs.append(vary(sc, rng, i))
+    # a coarse tbin (1 s, longer than a gap of the train): an event missing from A whose successor follows after 0.6 s - two
+    # candidates of B lie within one bin of it, the nearer one is the true partner
+    for i in range(14 if ctx.quick else 300):
+        N = rng.randint(NMIN_NEW, 300)
+        es = sorted(rng.sample(range(5, N - 5), 3))
+        sc = make_scenario(rng, N=N, linear=bool(i % 2), gapmode="long")
+        sc.update({"drift_ppm": rng.uniform(-50, 50), "offset": rng.uniform(-60, 60), "missA": es, "missB": [], "tbin": 1.0,
+                   "plant": [es[i % 3]], "indices": True})
+        scs.append(sc)
     # one array object given as both series, in every storage form
     for i, form in enumerate(("",) + FORMS if ctx.quick else (("",) + FORMS) * 4):
         sc = make_scenario(rng, special="alias", nmiss=(0, 0), linear=bool(i % 2), N=rng.randint(NMIN_NEW, 300))
